@@ -10,7 +10,7 @@
     positive multiples of unit vectors (met by the executable [heading_exact]). *)
 From Coq Require Import List Bool Arith ZArith QArith Qcanon Qabs.
 From PTBase Require Import Exn.
-From P Require Import Rectgeo GeoFacts Forward Main Regen Final Heading Trim FinalTrim FileSim FileGrid FinalFile Witness RndAcc RndFile.
+From P Require Import Rectgeo GeoFacts Forward Main Regen Final Heading Trim FinalTrim FileSim FileGrid FinalFile Witness RndAcc RndFile RndFuel.
 Import ListNotations.
 Open Scope Qc_scope.
 
@@ -242,3 +242,18 @@ Theorem file_spacing_accuracy : forall (d : Qc) (m : Q) (e : Z), 0 < d ->
   d - Q2Qc (1 # 20000) * d <= file_spacing d /\ file_spacing d <= d + Q2Qc (1 # 20000) * d.
 Proof. exact file_spacing_accuracy_lemma. Qed.
 Print Assumptions file_spacing_accuracy.
+(** the fuel of [normalise] always suffices: for EVERY positive rational the mantissa ends in [1, 10) -- so the
+    hypothesis [1 <= m] of the two theorems above holds, and the accuracy statements are unconditional *)
+Theorem normalise_fuel_suffices : forall x : Q, (0 < x)%Q ->
+  (1 <= fst (normalise (S (Z.to_nat (Z.log2 (Qnum x) + Z.log2 (Zpos (Qden x)) + 2)%Z)) x 0) /\
+   fst (normalise (S (Z.to_nat (Z.log2 (Qnum x) + Z.log2 (Zpos (Qden x)) + 2)%Z)) x 0) < 10)%Q.
+Proof. exact normalise_fuel_suffices_lemma. Qed.
+Print Assumptions normalise_fuel_suffices.
+Theorem rnd_pos_accuracy : forall (d : nat) (x : Q), (0 < x)%Q ->
+  (Qabs (rnd_pos d x - x) <= (1 # 2) * pow10 (1 - Z.of_nat d) * x)%Q.
+Proof. exact rnd_pos_accuracy_lemma. Qed.
+Print Assumptions rnd_pos_accuracy.
+Theorem file_spacing_accuracy_unconditional : forall d : Qc, 0 < d ->
+  d - Q2Qc (1 # 20000) * d <= file_spacing d /\ file_spacing d <= d + Q2Qc (1 # 20000) * d.
+Proof. exact file_spacing_accuracy_total_lemma. Qed.
+Print Assumptions file_spacing_accuracy_unconditional.
